@@ -95,7 +95,7 @@ def FrameOk (R : Rel) : Prop := ∀ f : Env → Env, (∀ s, (f s).prot = s.prot
 def ProtOk (R : Rel) : Prop := ∀ f : Env → Env, (∀ s, (f s).calls = s.calls) → Pres R (M.modify f)
 /-- `R` tolerates invoking a native that is flagged side-effect free. -/
 def InvokeOk (R : Rel) (cfg : Cfg) : Prop :=
-  ∀ name f self args, cfg.native name = some f → f.safe = true → Pres R (invokeNative name f self args)
+  ∀ name f self args, cfg.native name = some f → f.safe = true → Pres R (invokeNative cfg name f self args)
 
 theorem pres_frame {R : Rel} (h : FrameOk R) {f : Env → Env} (hf : ∀ s, (f s).prot = s.prot ∧ (f s).calls = s.calls) :
     Pres R (M.modify f) := h f hf
@@ -131,6 +131,17 @@ theorem pres_writeLocal (hF : FrameOk R) (n v) : Pres R (writeLocal n v) := by u
 theorem pres_combine (op a b) : Pres R (combine op a b) := by unfold combine; pres_auto
 theorem pres_writeGlobal (hP : ProtOk R) (n v) : Pres R (writeGlobal n v) := by unfold writeGlobal; pres_auto
 theorem pres_writeAttr (hP : ProtOk R) (o f v) : Pres R (writeAttr o f v) := by unfold writeAttr; pres_auto
+theorem pres_refRead (cfg r) : Pres R (refRead cfg r) := by
+  unfold refRead; split
+  · exact pres_getField _ _ _ _
+  · exact pres_fail _
+theorem pres_refWrite (hF : FrameOk R) (hP : ProtOk R) (r v) : Pres R (refWrite r v) := by
+  unfold refWrite; split
+  · exact pres_writeAttr hP _ _ _
+  · exact pres_writeGlobal hP _ _
+  · exact pres_writeLocal hF _ _
+  · exact pres_pure _
+  · exact pres_fail _
 
 
 
@@ -148,6 +159,8 @@ macro_rules
         | exact pres_readVar _
         | exact pres_getField _ _ _ _
         | exact pres_combine _ _ _
+        | exact pres_refRead _ _
+        | exact pres_refWrite (by assumption) (by assumption) _ _
         | exact pres_writeLocal (by assumption) _ _
         | exact pres_writeGlobal (by assumption) _ _
         | exact pres_writeAttr (by assumption) _ _ _
@@ -159,6 +172,12 @@ macro_rules
         | apply pres_catch
         | intro _
         | split))
+
+theorem pres_initDict (cfg : Cfg) (sb : Bool) (hF : FrameOk R) (hP : ProtOk R) {ev : Expr → M Out}
+    (hev : ∀ e, Pres R (ev e)) (o : Expr) : Pres R (initDict cfg sb ev o) := by
+  unfold initDict
+  pres_node
+  all_goals exact hev _
 
 theorem pres_callValue (cfg : Cfg) (hcc : cfg.callCheck = true) (hF : FrameOk R) (hI : InvokeOk R cfg)
     {ev : Expr → M Out} (hev : ∀ e, Pres R (ev e))
@@ -235,6 +254,7 @@ theorem eval_pres (cfg : Cfg) (hcc : cfg.callCheck = true) (hF : FrameOk R) (hI 
           | (exact pres_callValue cfg hcc hF hI ih (fun es k hk => pres_evalList ih es k hk) _ _ _)
           | exact pres_loopWhile ih _ _ _
           | exact pres_loopFor hF ih _ _ _ _
+          | exact pres_initDict cfg true hF (by assumption) ih _
           | skip
     · apply pres_bind (pres_guardCheck _ _ _); intro _
       cases e <;> simp only [evalNode]
@@ -248,6 +268,7 @@ theorem eval_pres (cfg : Cfg) (hcc : cfg.callCheck = true) (hF : FrameOk R) (hI 
         | (exact pres_callValue cfg hcc hF hI ih (fun es k hk => pres_evalList ih es k hk) _ _ _)
         | exact pres_loopWhile ih _ _ _
         | exact pres_loopFor hF ih _ _ _ _
+        | exact pres_initDict cfg true hF (by assumption) ih _
         | skip
 
 /-! ### The two relations -/
@@ -283,28 +304,49 @@ theorem frameOk_callsOk (cfg : Cfg) : FrameOk (callsOk cfg) :=
 theorem protOk_callsOk (cfg : Cfg) : ProtOk (callsOk cfg) :=
   fun f hf => ⟨fun s c hc => Or.inl (by have := hf s; simp only [M.modify] at hc; rw [this] at hc; exact hc)⟩
 
-theorem invokeNative_run (name : String) (f : Native) (self : Value) (args : List Value) (s : Env) :
-    (invokeNative name f self args s).2 =
-      { s with calls := .native name :: s.calls, prot := (f.run self args s.prot).2 } := by
-  simp only [invokeNative, bind, M.bind, M.modify, M.get]
+theorem runOpaque_snd (f : Native) (self : Value) (args : List Value) (s : Env) :
+    (runOpaque f self args s).2 = { s with prot := (f.run self args s.prot).2 } := by
+  simp only [runOpaque, bind, M.bind, M.modify, M.get]
   cases h : f.run self args s.prot with
   | mk r p' =>
     have h' : f.2 self args s.prot = (r, p') := h
     cases r <;> simp [liftE, M.fail, pure, M.pure, h']
 
-theorem invokeOk_protEq (cfg : Cfg) (hp : SafeNativesPure cfg) : InvokeOk protEq cfg := by
+/-- The built-in `Reference#set` writes: it must not be flagged side-effect free. -/
+def RefSetUnsafe (cfg : Cfg) : Prop := ∀ f, cfg.native "Reference#set" = some f → f.safe = false
+
+theorem invokeOk_protEq (cfg : Cfg) (hp : SafeNativesPure cfg) (hset : RefSetUnsafe cfg) : InvokeOk protEq cfg := by
   intro name f self args hn hs
-  refine ⟨fun s => ?_⟩
-  rw [invokeNative_run]
-  exact hp name f hn hs self args s.prot
+  unfold invokeNative
+  apply pres_bind ⟨fun s => rfl⟩; intro _
+  split
+  · exact pres_refRead _ _
+  · split
+    · rename_i h; subst h
+      have := hset f hn
+      rw [this] at hs; cases hs
+    · refine ⟨fun s => ?_⟩
+      rw [runOpaque_snd]
+      exact hp name f hn hs self args s.prot
 
 theorem invokeOk_callsOk (cfg : Cfg) : InvokeOk (callsOk cfg) cfg := by
   intro name f self args hn hs
-  refine ⟨fun s c hc => ?_⟩
-  rw [invokeNative_run] at hc
-  simp only [List.mem_cons] at hc
-  rcases hc with rfl | hc
-  · right; simp [safeCallee, hn, hs]
-  · exact Or.inl hc
+  have hF := frameOk_callsOk cfg
+  have hP := protOk_callsOk cfg
+  unfold invokeNative
+  apply pres_bind
+  · refine ⟨fun s c hc => ?_⟩
+    simp only [M.modify, List.mem_cons] at hc
+    rcases hc with rfl | hc
+    · right; simp [safeCallee, hn, hs]
+    · exact Or.inl hc
+  intro _
+  split
+  · exact pres_refRead _ _
+  · split
+    · apply pres_bind (pres_refWrite hF hP _ _); intro _; exact pres_pure _
+    · refine ⟨fun s c hc => ?_⟩
+      rw [runOpaque_snd] at hc
+      exact Or.inl hc
 
 end Icinga.C19
